@@ -452,6 +452,8 @@ def run(m, tier):
         f.rule = "C02.S4"
     results = [r1_leaves_keep_text(m), r2_replace_map(m), r3_program_units(m, ctx), r4_reader_errors(m), r5_labels_names(m, ctx, blocks),
                r6_inverse_map(m), r7_restore_order(m), rr.rule_splitquote(m, "C02.R8"), engine_tables.string_rules(m, "C02.R9"), rr.rule_literal_folding(m, "C02.R10"), rr.rule_semicolon(m, "C02.R11"), guard_rules.delimiter_offset_rule(m, "C02.R12"), guard_rules.keyword_prefix_rule(m, "C02.R13"), rr.rule_inline_table(m, "C02.R14"), guard_rules.optional_keyword_rule(m, "C02.R15"), guard_rules.alt_delimiter_rule(m, "C02.R16", "Fortran2003"), optional_rules.printed_rule(m, "C02.R17"), guard_rules.length_contradiction_rule(m, "C02.R18"), rr.rule_continuation(m, "C02.R19"), engine_tables.list_stmt_rule(m, "C02.R20"), guard_rules.index_provenance_rule(m, "C02.R21"), two_roundtrip.roundtrip_rule(m, "C02.R22", floor=290, tokens=True), rr.replace_map_table_rule(m, "C02.R23"), two_roundtrip.block_printer_rule(m, "C02.R24"), two_roundtrip.full_roundtrip_rule(m, "C02.R25", tokens=True)] + shared + [cons]
+    from rules import prog_rules
+    results.append(prog_rules.roundtrip_rule(m, "C02.R26", tier, tokens=True))
     expl = ("Decides structural clauses of C02 -- no place where content is dropped, duplicated or case-folded: literal-bearing leaves "
             "store the input text without case folding; in all functions that tokenise a line, no child node is built from text that "
             "still carries placeholders (path-sensitive may-taint with the map call as sanitiser); Program.match returns what it "
